@@ -105,20 +105,24 @@ def history_runs(nruns, seed):
     from bingo.stats.hall_of_fame import HallOfFame
     from bingo.symbolic_regression import AGraphCrossover, AGraphMutation, ComponentGenerator, AGraphGenerator, \
         ExplicitRegression, ExplicitTrainingData
+    import bingo.symbolic_regression.implicit_regression as ir
+    import bingo.symbolic_regression.implicit_regression_schmidt as irs
     counter = multiprocessing.Value("q", 0)
-    ER = er.ExplicitRegression
-    o1, o2 = ER.evaluate_fitness_vector, ER.get_fitness_vector_and_jacobian
+    # every entry point through which a shipped vector-based fitness function is invoked
+    classes = [er.ExplicitRegression, ir.ImplicitRegression, irs.ImplicitRegressionSchmidt]
+    saved = []
 
-    def w1(self, individual):
-        with counter.get_lock():
-            counter.value += 1
-        return o1(self, individual)
-
-    def w2(self, individual):
-        with counter.get_lock():
-            counter.value += 1
-        return o2(self, individual)
-    ER.evaluate_fitness_vector, ER.get_fitness_vector_and_jacobian = w1, w2
+    def counting(orig):
+        def w(self, individual):
+            with counter.get_lock():
+                counter.value += 1
+            return orig(self, individual)
+        return w
+    for cls in classes:
+        for name in ("evaluate_fitness_vector", "get_fitness_vector_and_jacobian"):
+            if name in cls.__dict__:
+                saved.append((cls, name, cls.__dict__[name]))
+                setattr(cls, name, counting(cls.__dict__[name]))
     out = dict(runs=0, checks=0, viol=[], samples=[])
     rng = random.Random(seed)
     try:
@@ -126,13 +130,28 @@ def history_runs(nruns, seed):
             s = rng.randrange(10 ** 6)
             np.random.seed(s)
             random.seed(s)
-            mode = ["plain", "localopt", "localopt-mp", "subset", "archipelago", "archipelago-localopt"][r % 6]
-            x = np.linspace(-2, 2, 24).reshape(-1, 1)
-            td = ExplicitTrainingData(x, x ** 2 + 3.5 * x)
-            cg = ComponentGenerator(1)
-            for o in ("+", "-", "*"):
-                cg.add_operator(o)
-            fit = ExplicitRegression(training_data=td)
+            mode = ["plain", "localopt", "localopt-mp", "subset", "archipelago", "archipelago-localopt",
+                    "implicit-required", "implicit", "implicit-schmidt", "archipelago-implicit-required"][r % 10]
+            if "implicit" in mode:
+                # circle data in 3 variables (one of them unused by the invariant): equations using too few variables
+                # are rejected with an inf vector when required_params is set - an invocation all the same
+                t = np.linspace(0, 3, 30)
+                xs = np.column_stack([np.sin(t), np.cos(t), 0.5 * t])
+                itd = ir.ImplicitTrainingData(xs)
+                cg = ComponentGenerator(3)
+                for o in ("+", "-", "*"):
+                    cg.add_operator(o)
+                if mode == "implicit-schmidt":
+                    fit = irs.ImplicitRegressionSchmidt(itd)
+                else:
+                    fit = ir.ImplicitRegression(itd, required_params=(rng.choice([2, 3]) if "required" in mode else None))
+            else:
+                x = np.linspace(-2, 2, 24).reshape(-1, 1)
+                td = ExplicitTrainingData(x, x ** 2 + 3.5 * x)
+                cg = ComponentGenerator(1)
+                for o in ("+", "-", "*"):
+                    cg.add_operator(o)
+                fit = ExplicitRegression(training_data=td)
             fn = fit
             if "localopt" in mode:
                 fn = LocalOptFitnessFunction(fit, ScipyOptimizer(fit, method=rng.choice(["lm", "BFGS"])))
@@ -160,7 +179,8 @@ def history_runs(nruns, seed):
             out["runs"] += 1
             out["samples"].append(dict(mode=mode, seed=s, reported=opt.get_fitness_evaluation_count(), real=counter.value))
     finally:
-        ER.evaluate_fitness_vector, ER.get_fitness_vector_and_jacobian = o1, o2
+        for cls, name, orig in saved:
+            setattr(cls, name, orig)
     return out
 
 
@@ -177,7 +197,7 @@ def check(rep, proof, pid="C19"):
     rng = random.Random(rep.seed)
     n = 700 if rep.tier == "quick" else 12000
     cases = [gen_case(rng) for _ in range(n)]
-    rc, res, out, wall = vlib.run_impl("c19", dict(cases=cases, history_runs=6 if rep.tier == "quick" else 90, seed=rep.seed),
+    rc, res, out, wall = vlib.run_impl("c19", dict(cases=cases, history_runs=10 if rep.tier == "quick" else 100, seed=rep.seed),
                                        timeout=3400)
     if res is None:
         rep.violation("implementation harness crashed", dict(relation="corr_C19_evalphase", log=out[-3000:]), has_input=False)
